@@ -32,6 +32,11 @@ func detect() flags {
 	}
 	st := run1(storeLine(b), fmt.Sprintf("read zstd %s %d 6 0 0", b.hash, b.size))[1]
 	fl.strictR = !(st.read.err == nil && string(st.read.plain) == string(content))
+	one := mkBlob([]byte{7})
+	for i := 0; i < 25 && !fl.clientEOF; i++ {
+		r := run1(storeLine(one), fmt.Sprintf("cget 1 %s 1", one.hash))[1].reply
+		fl.clientEOF = r == "err 13 size"
+	}
 	return fl
 }
 
@@ -86,8 +91,8 @@ func TestC14(t *testing.T) {
 	defer model.Close()
 	run.HasModel = model != nil
 	e := &env{run: run, model: model, fl: detect(), seen: map[string]int{}}
-	run.Extra("variant", fmt.Sprintf("D5 repaired=%v D6 repaired=%v probe tolerates io.ErrUnexpectedEOF=%v truncated stream surfaces as %d/%s",
-		e.fl.strictW, e.fl.strictR, e.fl.lenient, e.fl.truncCode, e.fl.truncTag))
+	run.Extra("variant", fmt.Sprintf("D5 repaired=%v D6 repaired=%v D10 repaired=%v probe tolerates io.ErrUnexpectedEOF=%v truncated stream surfaces as %d/%s",
+		e.fl.strictW, e.fl.strictR, !e.fl.clientEOF, e.fl.lenient, e.fl.truncCode, e.fl.truncTag))
 	run.SetRule("a case is a script of RPCs against fresh backends: ByteStream.Write with an arbitrary request sequence (gaps, overlaps, " +
 		"missing/repeated/early finish_write, early close, stream errors at any request, empty requests, identity and real zstd data, " +
 		"malformed resource names, backend/send faults), ByteStream.Read (offsets around 0/size/chunk multiples, read_limit, send failures, " +
@@ -170,6 +175,7 @@ func canonical(e *env) {
 		{"#cfg 16 100", storeLine(b), fmt.Sprintf("read zstd %s %s %d 0 0", b.hash, size, b.size+1)},
 		{"#cfg 4 100", fmt.Sprintf("cput 0 %s %s %s", b.hash, size, hexs(b.data)), fmt.Sprintf("cget 0 %s %s", b.hash, size)},
 		{"#cfg 4 100", fmt.Sprintf("cput 1 %s %s %s", b.hash, size, hexs(b.data)), fmt.Sprintf("cget 1 %s %s", b.hash, size)},
+		{"#cfg 16 100", "store " + sha([]byte{7}) + " 1 07", "cget 1 " + sha([]byte{7}) + " 1"},
 	}
 	for i, c := range cases {
 		e.handle(fmt.Sprintf("canonical/%d", i), c, "canonical")
